@@ -162,7 +162,7 @@ theorem preparedFromRead_eq (kn : WName) (r : Tsig.ReadTsigRr) (nowT : Tsig.Time
     degrades to TC / NOERROR without TSIG and the step returns `none` (stop) -/
 def Responds (s : State) (rc : Nat) (mode : TsigMode) (rr : TsigRr) (res : Option Reader.Reader)
     (out : Out WriterErr (Option Reader.Reader) × State) : Prop :=
-  ∃ s1, HeaderOnly s s1 ∧ getRcode s1 = rc ∧
+  ∃ s1, HeaderOnly s s1 ∧ getRcode s1 = rc ∧ (∀ i, i ≠ Gen.RCODE_BYTE → hdr s1 i = hdr s i) ∧
     ((TsigFits s mode rr ∧ out = (.ok res, withTsig s1 mode rr)) ∨
      (¬ TsigFits s mode rr ∧ ∃ s', out = (.ok none, s') ∧ HeaderOnly s s' ∧ getRcode s' = 0 ∧
         getBit s' Gen.TC_BYTE Gen.TC_MASK = true))
@@ -177,8 +177,8 @@ theorem respond_tail (s : State) (hs : 12 ≤ s.octets.size) (rc : Nat) (hrc : r
       ((do setRcode rc
            let added ← setTsigOrTruncate mode rr
            if added && b then pure (some r') else pure none : M (Option Reader.Reader)) s) := by
-  obtain ⟨s1, h1, f1, r1, _⟩ := setRcode_spec rc hrc s hs
-  refine ⟨s1, f1, r1, ?_⟩
+  obtain ⟨s1, h1, f1, r1, k1⟩ := setRcode_spec rc hrc s hs
+  refine ⟨s1, f1, r1, k1, ?_⟩
   by_cases hf : TsigFits s mode rr
   · left
     refine ⟨hf, ?_⟩
@@ -198,8 +198,8 @@ theorem tsigBadKey_spec (s : State) (hs : 12 ≤ s.octets.size) (r : Tsig.ReadTs
     Responds s 9 (.unsigned an) (prepOf kn r nowT 17) none (tsigBadKey r nowT s) := by
   unfold tsigBadKey
   rw [rc_notauth, xrc_badkey]
-  obtain ⟨s1, h1, f1, r1, _⟩ := setRcode_spec 9 (by omega) s hs
-  refine ⟨s1, f1, r1, ?_⟩
+  obtain ⟨s1, h1, f1, r1, k1⟩ := setRcode_spec 9 (by omega) s hs
+  refine ⟨s1, f1, r1, k1, ?_⟩
   by_cases hf : TsigFits s (.unsigned an) (prepOf kn r nowT 17)
   · left
     refine ⟨hf, ?_⟩
@@ -301,7 +301,7 @@ theorem Responds.some_inv {s : State} {rc : Nat} {mode : TsigMode} {rr : TsigRr}
     {out : Out WriterErr (Option Reader.Reader) × State} (h : Responds s rc mode rr res out)
     {x : Reader.Reader} {s' : State} (ho : out = (.ok (some x), s')) :
     res = some x ∧ TsigFits s mode rr ∧ ∃ s1, HeaderOnly s s1 ∧ getRcode s1 = rc ∧ s' = withTsig s1 mode rr := by
-  obtain ⟨s1, f1, r1, h⟩ := h
+  obtain ⟨s1, f1, r1, _, h⟩ := h
   rcases h with ⟨hf, h⟩ | ⟨_, s2, h, _⟩
   · rw [ho] at h
     injection h with ha hb
@@ -315,7 +315,7 @@ theorem Responds.some_inv {s : State} {rc : Nat} {mode : TsigMode} {rr : TsigRr}
 theorem Responds.none_out {s : State} {rc : Nat} {mode : TsigMode} {rr : TsigRr}
     {out : Out WriterErr (Option Reader.Reader) × State} (h : Responds s rc mode rr none out) :
     ∃ s', out = (.ok none, s') := by
-  obtain ⟨s1, _, _, h⟩ := h
+  obtain ⟨s1, _, _, _, h⟩ := h
   rcases h with ⟨_, h⟩ | ⟨_, s2, h, _⟩
   · exact ⟨_, h⟩
   · exact ⟨_, h⟩
@@ -818,5 +818,637 @@ theorem handleWithContext_eq (cfg : Cfg) (tr : Transport) (now : Nat) (r0 : Read
     · simp [andThen]
   · simp [andThen]
   · simp [andThen]
+
+/-! ### writing the question -/
+
+theorem writeAt_size (a : Bytes) (pos : Nat) (d : List UInt8) : (writeAt a pos d).size = a.size := by
+  induction d generalizing a pos with
+  | nil => rfl
+  | cons b bs ih => unfold writeAt; rw [ih]; simp
+
+/-- what writing the question leaves alone -/
+structure QFrame (s s' : State) : Prop where
+  rrStart : s'.rrStart = s.rrStart
+  sect : s'.sect = s.sect
+  qdcount : s'.qdcount = s.qdcount
+  ancount : s'.ancount = s.ancount
+  nscount : s'.nscount = s.nscount
+  arcount : s'.arcount = s.arcount
+  available : s'.available = s.available
+  limit : s'.limit = s.limit
+  tsig : s'.tsig = s.tsig
+  edns : s'.edns = s.edns
+  size : s'.octets.size = s.octets.size
+  cursor : s.cursor ≤ s'.cursor
+
+theorem QFrame.refl (s : State) : QFrame s s := ⟨rfl, rfl, rfl, rfl, rfl, rfl, rfl, rfl, rfl, rfl, rfl, Nat.le_refl _⟩
+theorem QFrame.trans {a b c : State} (h1 : QFrame a b) (h2 : QFrame b c) : QFrame a c :=
+  ⟨h2.rrStart.trans h1.rrStart, h2.sect.trans h1.sect, h2.qdcount.trans h1.qdcount, h2.ancount.trans h1.ancount,
+   h2.nscount.trans h1.nscount, h2.arcount.trans h1.arcount, h2.available.trans h1.available,
+   h2.limit.trans h1.limit, h2.tsig.trans h1.tsig, h2.edns.trans h1.edns, h2.size.trans h1.size,
+   Nat.le_trans h1.cursor h2.cursor⟩
+
+/-- frame + how far the cursor may have moved: at most `k` octets -/
+def QF {α} (k : Nat) (m : M α) : Prop := ∀ s, QFrame s (m s).2 ∧ (m s).2.cursor ≤ s.cursor + k
+
+theorem QF.mono {α} {k k' : Nat} {m : M α} (h : QF k m) (hk : k ≤ k') : QF k' m :=
+  fun s => ⟨(h s).1, Nat.le_trans (h s).2 (by omega)⟩
+
+theorem QF.pure {α} (a : α) : QF 0 (Pure.pure a : M α) := fun s => ⟨QFrame.refl s, Nat.le_refl _⟩
+
+theorem QF.bind {α β} {k1 k2 : Nat} {x : M α} {f : α → M β} (hx : QF k1 x) (hf : ∀ a, QF k2 (f a)) :
+    QF (k1 + k2) (x >>= f) := by
+  intro s
+  have h1 := hx s
+  show QFrame s ((match x s with
+    | (.ok a, s') => f a s'
+    | (.err e, s') => (.err e, s')
+    | (.panic, s') => (.panic, s')).2) ∧ _
+  show _ ∧ ((match x s with
+    | (.ok a, s') => f a s'
+    | (.err e, s') => (.err e, s')
+    | (.panic, s') => (.panic, s')).2).cursor ≤ _
+  rcases hxs : x s with ⟨r, s1⟩
+  rw [hxs] at h1
+  cases r with
+  | ok a => exact ⟨h1.1.trans (hf a s1).1, by have := (hf a s1).2; have := h1.2; simp only at *; omega⟩
+  | err e => exact ⟨h1.1, by have := h1.2; simp only at *; omega⟩
+  | panic => exact ⟨h1.1, by have := h1.2; simp only at *; omega⟩
+
+theorem QF.write (pos : Nat) (d : List UInt8) : QF 0 (write pos d) := by
+  intro s; unfold Writer.write
+  split
+  · exact ⟨by constructor <;> simp [writeAt_size], by simp⟩
+  · exact ⟨QFrame.refl s, Nat.le_refl _⟩
+
+theorem QF.tryPush (d : List UInt8) : QF d.length (tryPush d) := by
+  intro s; unfold Writer.tryPush
+  split
+  · exact ⟨QFrame.refl s, by simp⟩
+  · split
+    · have h := QF.write s.cursor d s
+      split
+      · rename_i s' heq; rw [heq] at h
+        exact ⟨⟨h.1.rrStart, h.1.sect, h.1.qdcount, h.1.ancount, h.1.nscount, h.1.arcount, h.1.available,
+          h.1.limit, h.1.tsig, h.1.edns, h.1.size, by have := h.1.cursor; simp only at *; omega⟩,
+          by have := h.2; simp only at *; omega⟩
+      · rename_i r hne
+        exact ⟨h.1, by have := h.2; omega⟩
+    · exact ⟨QFrame.refl s, by simp⟩
+
+theorem QF.modify (f : State → State) (h : ∀ s, QFrame s (f s) ∧ (f s).cursor ≤ s.cursor) : QF 0 (M.modify f) :=
+  fun s => ⟨(h s).1, by have := (h s).2; simp only [M.modify] at *; omega⟩
+
+theorem QF.ghostLabels (pos : Nat) (ls : List Label) (b : Bool) : QF 0 (ghostLabels pos ls b) := by
+  unfold Writer.ghostLabels
+  apply QF.modify
+  intro s; exact ⟨by constructor <;> simp, by simp⟩
+
+theorem QF.setCtx (c : NameCtx) : QF 0 (setCtx c) := by
+  unfold Writer.setCtx
+  apply QF.modify
+  intro s; exact ⟨by constructor <;> simp, by simp⟩
+
+theorem QF.pushPointer (p : Nat) : QF 2 (pushPointer p) := by
+  intro s; unfold Writer.pushPointer
+  have h := QF.tryPush (u16be (49152 + p)) s
+  have hl : (u16be (49152 + p)).length = 2 := by simp [u16be]
+  rw [hl] at h
+  unfold Writer.tryPushU16
+  split
+  · rename_i s' heq; rw [heq] at h
+    exact ⟨⟨h.1.rrStart, h.1.sect, h.1.qdcount, h.1.ancount, h.1.nscount, h.1.arcount, h.1.available,
+      h.1.limit, h.1.tsig, h.1.edns, h.1.size, h.1.cursor⟩, h.2⟩
+  · rename_i r hne; exact h
+
+theorem QF.writeUncompressedName (n : WName) : QF n.wire.length (writeUncompressedName n) := by
+  intro s; unfold Writer.writeUncompressedName
+  have h := QF.tryPush n.wire s
+  dsimp only
+  split
+  · rename_i s' heq; rw [heq] at h
+    have g := QF.ghostLabels s.cursor n.labels true s'
+    exact ⟨h.1.trans g.1, by have := h.2; have := g.2; simp only at *; omega⟩
+  · rename_i e s' heq; rw [heq] at h; exact h
+  · rename_i s' heq; rw [heq] at h; exact h
+
+theorem wireTo_length_le (n : WName) (k : Nat) : (n.wireTo k).length ≤ n.wire.length := by
+  unfold WName.wireTo
+  split
+  · exact Nat.le_refl _
+  · unfold WName.wire
+    have : ∀ (l : List Label) (k : Nat), ((l.take k).flatMap WName.encLabel).length ≤ (l.flatMap WName.encLabel).length := by
+      intro l
+      induction l with
+      | nil => intro k; simp
+      | cons a t ih =>
+        intro k
+        cases k with
+        | zero => simp
+        | succ k => simp only [List.take_succ_cons, List.flatMap_cons, List.length_append]; have := ih k; omega
+    have := this n.labels k
+    simp only [List.length_append]; omega
+
+theorem QF.writeCompressedUnhintedName (n : WName) : QF (n.wire.length + 2) (writeCompressedUnhintedName n) := by
+  intro s; unfold Writer.writeCompressedUnhintedName
+  split
+  · exact ⟨QFrame.refl s, by simp⟩
+  · exact ⟨QFrame.refl s, by simp⟩
+  · exact (QF.mono (QF.writeUncompressedName n) (by omega)) s
+  · rename_i m hm
+    split
+    · have h := QF.pushPointer m.priorPointer s
+      split
+      · rename_i s' heq; rw [heq] at h; exact ⟨h.1, by have := h.2; simp only at *; omega⟩
+      · rename_i e s' heq; rw [heq] at h; exact ⟨h.1, by have := h.2; simp only at *; omega⟩
+      · rename_i s' heq; rw [heq] at h; exact ⟨h.1, by have := h.2; simp only at *; omega⟩
+    · dsimp only
+      have h := QF.tryPush (n.wireTo m.startColumn) s
+      have hl := wireTo_length_le n m.startColumn
+      split
+      · rename_i s1 heq; rw [heq] at h
+        have g := QF.ghostLabels s.cursor (n.labels.take m.startColumn) false s1
+        have p := QF.pushPointer m.priorPointer (Writer.ghostLabels s.cursor (n.labels.take m.startColumn) false s1).2
+        have f12 := h.1.trans g.1
+        split
+        · rename_i s3 heq3; rw [heq3] at p
+          exact ⟨f12.trans p.1, by have := h.2; have := g.2; have := p.2; simp only at *; omega⟩
+        · rename_i e s3 heq3; rw [heq3] at p
+          exact ⟨f12.trans p.1, by have := h.2; have := g.2; have := p.2; simp only at *; omega⟩
+        · rename_i s3 heq3; rw [heq3] at p
+          exact ⟨f12.trans p.1, by have := h.2; have := g.2; have := p.2; simp only at *; omega⟩
+      · rename_i e s1 heq; rw [heq] at h; exact ⟨h.1, by have := h.2; simp only at *; omega⟩
+      · rename_i s1 heq; rw [heq] at h; exact ⟨h.1, by have := h.2; simp only at *; omega⟩
+
+theorem QF.writeUnhintedName (n : WName) : QF (n.wire.length + 2) (writeUnhintedName n) := by
+  intro s; unfold Writer.writeUnhintedName
+  split
+  · exact QF.writeCompressedUnhintedName n s
+  · exact (QF.mono (QF.writeUncompressedName n) (by omega)) s
+
+theorem QF.get : QF 0 (M.get) := fun s => ⟨QFrame.refl s, Nat.le_refl _⟩
+
+theorem QF.tryPushU16 (v : Nat) : QF 2 (tryPushU16 v) := by
+  have := QF.tryPush (u16be v)
+  have hl : (u16be v).length = 2 := by simp [u16be]
+  rw [hl] at this; exact this
+
+/-- the body of `add_question` inside `with_rollback` -/
+theorem QF.questionBlock (qname : WName) (qtype qclass : Nat) :
+    QF (qname.wire.length + 6) (do
+        Writer.setCtx .qname
+        let p ← Writer.writeUnhintedName qname
+        Writer.setCtx .none
+        let st ← M.get
+        if st.qdcount = 0 then M.modify fun s => { s with qname := p }
+        Writer.tryPushU16 qtype
+        Writer.tryPushU16 qclass : M Unit) := by
+  refine QF.mono (QF.bind (QF.setCtx _) fun _ => QF.bind (QF.writeUnhintedName qname) fun p =>
+    QF.bind (QF.setCtx _) fun _ => QF.bind QF.get fun st => (?_ : QF 4 _)) (by omega)
+  by_cases h : st.qdcount = 0
+  · simp only [h, if_true]
+    exact QF.mono (QF.bind (QF.modify _ (fun s => ⟨by constructor <;> simp, by simp⟩)) fun _ =>
+      QF.bind (QF.tryPushU16 _) fun _ => QF.tryPushU16 _) (by omega)
+  · simp only [h, if_false]
+    first
+      | exact QF.mono (QF.bind (QF.pure _) fun _ => QF.bind (QF.tryPushU16 _) fun _ => QF.tryPushU16 _) (by omega)
+      | exact QF.mono (QF.bind (QF.tryPushU16 _) fun _ => QF.tryPushU16 _) (by omega)
+
+/-- what every step before the TSIG step keeps: the room for the TSIG RR and the record counts -/
+structure Room (s s' : State) : Prop where
+  sect : s'.sect = s.sect
+  ancount : s'.ancount = s.ancount
+  nscount : s'.nscount = s.nscount
+  arcount : s'.arcount = s.arcount
+  available : s'.available = s.available
+  limit : s'.limit = s.limit
+  tsig : s'.tsig = s.tsig
+  edns : s'.edns = s.edns
+  size : s'.octets.size = s.octets.size
+
+theorem QFrame.room {s s' : State} (h : QFrame s s') : Room s s' :=
+  ⟨h.sect, h.ancount, h.nscount, h.arcount, h.available, h.limit, h.tsig, h.edns, h.size⟩
+
+/-- **`add_question`**: on success the record area starts right after the question, which takes at
+    most `name + 6` octets (`+ 2`: a compression pointer the question never needs); on failure the
+    cursor is rolled back. -/
+theorem addQuestion_spec (qn : WName) (qt qc : Nat) (s : State) :
+    (∀ s', addQuestion qn qt qc s = (.ok (), s') →
+        Room s s' ∧ s'.rrStart = s'.cursor ∧ s'.cursor ≤ s.cursor + qn.wire.length + 6) ∧
+    (∀ e s', addQuestion qn qt qc s = (.err e, s') →
+        Room s s' ∧ s'.cursor = s.cursor ∧ s'.rrStart = s.rrStart) := by
+  unfold Writer.addQuestion
+  have triv : Room s s := ⟨rfl, rfl, rfl, rfl, rfl, rfl, rfl, rfl, rfl⟩
+  split
+  · exact ⟨(fun s' h => by cases h), (fun e s' h => by cases h; exact ⟨triv, rfl, rfl⟩)⟩
+  · split
+    · exact ⟨(fun s' h => by cases h), (fun e s' h => by cases h; exact ⟨triv, rfl, rfl⟩)⟩
+    · have hb := QF.questionBlock qn qt qc s
+      unfold Writer.withRollback
+      generalize (Writer.setCtx NameCtx.qname >>= _) s = res at hb ⊢
+      rcases res with ⟨r, s1⟩
+      rcases r with u | e | _
+      · refine ⟨(fun s' h => ?_), (fun e s' h => by cases h)⟩
+        cases h
+        exact ⟨⟨hb.1.sect, hb.1.ancount, hb.1.nscount, hb.1.arcount, hb.1.available, hb.1.limit, hb.1.tsig,
+          hb.1.edns, hb.1.size⟩, rfl, by have := hb.2; simp only at *; omega⟩
+      · refine ⟨(fun s' h => by cases h), (fun e' s' h => ?_)⟩
+        cases h
+        exact ⟨⟨rfl, hb.1.ancount, hb.1.nscount, hb.1.arcount, hb.1.available, hb.1.limit, hb.1.tsig,
+          hb.1.edns, hb.1.size⟩, rfl, hb.1.rrStart⟩
+      · exact ⟨(fun s' h => by cases h), (fun e s' h => by cases h)⟩
+
+/-! ### the continuing path of the scan -/
+
+/-- the OPT arm continues only through `set_limit` (UDP) and a valid OPT -/
+theorem optTail_some (tr : Transport) (lim : Nat) (c1 c2 : Prop) [Decidable c1] [Decidable c2]
+    (k : M (Option ScanSt)) (s1 : State) (st' : ScanSt) (s' : State)
+    (h : (do
+      if tr = Transport.udp then Writer.setLimit lim else Pure.pure ()
+      if c1 then do
+        Writer.unwrap (Writer.setExtendedRcode (XRC "FORMERR"))
+        Pure.pure none
+      else if c2 then do
+        Writer.unwrap (Writer.setExtendedRcode (XRC "BADVERSBADSIG"))
+        Pure.pure none
+      else k : M (Option ScanSt)) s1 = (.ok (some st'), s')) :
+    ∃ s2, ((tr = Transport.udp ∧ Writer.setLimit lim s1 = (.ok (), s2)) ∨ (tr ≠ Transport.udp ∧ s2 = s1)) ∧
+      k s2 = (.ok (some st'), s') := by
+  by_cases htr : tr = Transport.udp <;> by_cases h1 : c1 <;> by_cases h2 : c2 <;>
+    simp only [htr, h1, h2, ↓reduceIte, bind] at h
+  all_goals first
+    | exact ⟨s1, Or.inr ⟨htr, rfl⟩, h⟩
+    | (split at h
+       · first
+         | (rename_i a s2 heq; exact ⟨s2, Or.inl ⟨htr, heq⟩, h⟩)
+         | (simp [Pure.pure] at h; done)
+         | (split at h <;> first | (cases h; done) | (simp [Pure.pure] at h; done))
+       · cases h
+       · cases h)
+
+theorem stop_not_some {α} (m : M Unit) (s : State) (x : α) (s' : State) :
+    (m >>= fun _ => (Pure.pure none : M (Option α))) s ≠ (.ok (some x), s') := by
+  simp only [bind]
+  intro h
+  split at h <;> simp [Pure.pure] at h
+
+/-- induction principle for the *continuing* path of the scan of the additional section: a property
+    kept by a successful `set_edns`, `set_limit` and by a TSIG step that lets the scan go on holds
+    when the scan completes -/
+theorem scanAr_some (cfg : Cfg) (tr : Transport) (now arcount : Nat) (P : State → Prop)
+    (hE : ∀ s s1, P s → setEdns cfg.payload s = (.ok (), s1) → P s1)
+    (hL : ∀ l s s1, P s → setLimit l s = (.ok (), s1) → P s1)
+    (hT : ∀ p raw s r' s1, P s → handleTsig cfg now p raw s = (.ok (some r'), s1) → P s1) :
+    ∀ (n index : Nat) (st : ScanSt) (s : State) (st' : ScanSt) (s' : State), P s →
+      scanAr cfg tr now arcount n index st s = (.ok (some st'), s') → P s' := by
+  intro n
+  induction n with
+  | zero =>
+    intro index st s st' s' hp h
+    unfold Server.scanAr at h
+    cases h; exact hp
+  | succ n ih =>
+    intro index st s st' s' hp h
+    unfold Server.scanAr at h
+    split at h
+    · rename_i p hpk
+      split at h
+      · split at h
+        · split at h
+          · exact absurd h (stop_not_some _ _ _ _)
+          · split at h
+            · rename_i s1 heq
+              have hp1 := hE s s1 hp heq
+              split at h
+              · split at h
+                · obtain ⟨s2, hs2, hk⟩ := optTail_some tr _ _ _ _ s1 st' s' h
+                  have hp2 : P s2 := by
+                    rcases hs2 with ⟨_, hl⟩ | ⟨_, rfl⟩
+                    · exact hL _ s1 s2 hp1 hl
+                    · exact hp1
+                  exact ih _ _ s2 st' s' hp2 hk
+                · exact absurd h (stop_not_some _ _ _ _)
+                · cases h
+              · cases h
+            · exact absurd h (stop_not_some _ _ _ _)
+            · cases h
+        · split at h
+          · split at h
+            · exact absurd h (stop_not_some _ _ _ _)
+            · split at h
+              · rename_i raw hraw
+                split at h
+                · rename_i r' s1 heq
+                  exact ih _ _ s1 st' s' (hT p raw s r' s1 hp heq) h
+                · cases h
+                · cases h
+                · cases h
+              · cases h
+          · exact ih _ _ s st' s' hp h
+      · cases h
+    · exact absurd h (stop_not_some _ _ _ _)
+    · cases h
+
+/-! ### a TSIG step that lets the scan go on is an authenticated one -/
+
+theorem preparedFromRead_none (r : ReadTsigRr) (nowT : TimeSigned) (e : Nat)
+    (h : ∀ kn, WName.parse r.keyName ≠ some (kn, [])) : preparedFromRead r nowT e = none := by
+  unfold preparedFromRead
+  split
+  · rename_i kn heq; exact absurd heq (h kn)
+  · rfl
+
+theorem tsigBadKey_not_some (r : ReadTsigRr) (nowT : TimeSigned) (s : State) (x : Reader.Reader) (s' : State) :
+    tsigBadKey r nowT s ≠ (.ok (some x), s') := by
+  unfold Server.tsigBadKey
+  simp only [bind]
+  intro h
+  split at h
+  · rename_i u s1 heq
+    rcases ha : WName.parse r.algorithm with _ | ⟨an, rest⟩
+    · simp [ha, M.panic] at h
+    · rcases hp : preparedFromRead r nowT (XRC "BADKEY") with _ | prep
+      · cases rest <;> simp [ha, hp, M.panic] at h
+      · cases rest with
+        | nil =>
+          simp only [ha, hp] at h
+          split at h <;> simp [Pure.pure] at h
+        | cons a t => simp [ha, hp, M.panic] at h
+  · cases h
+  · cases h
+
+theorem tsigVerifyAndWrite_some (hm : Algorithm → Octets → Octets → Octets) (s : State) (hs : 12 ≤ s.octets.size)
+    (r : ReadTsigRr) (msg : List UInt8) (alg : Hmac.Alg) (secret : List UInt8) (nowT : TimeSigned)
+    (r' x : Reader.Reader) (s' : State)
+    (h : tsigVerifyAndWrite hm r msg alg secret nowT r' s = (.ok (some x), s')) :
+    ∃ kn s1, WName.parse r.keyName = some (kn, []) ∧ verifyRequest hm r msg alg secret nowT = .ok () ∧ x = r' ∧
+      TsigFits s (.response (toWriterAlg alg) r.mac secret) (prepOf kn r nowT 0) ∧ HeaderOnly s s1 ∧
+      getRcode s1 = 0 ∧ s' = withTsig s1 (.response (toWriterAlg alg) r.mac secret) (prepOf kn r nowT 0) := by
+  by_cases hk : ∃ kn, WName.parse r.keyName = some (kn, [])
+  · obtain ⟨kn, hkn⟩ := hk
+    have tbl := tsigVerifyAndWrite_spec hm s hs r msg alg secret nowT r' kn hkn
+    rcases hv : verifyRequest hm r msg alg secret nowT with u | e | _
+    · cases u
+      rw [hv] at tbl; dsimp only at tbl
+      obtain ⟨hx, hf, s1, f1, r1, hs'⟩ := tbl.some_inv h
+      cases hx
+      exact ⟨kn, s1, hkn, rfl, rfl, hf, f1, r1, hs'⟩
+    · rw [hv] at tbl
+      cases e <;> dsimp only at tbl <;> (obtain ⟨s2, h2⟩ := tbl.none_out; rw [h] at h2; cases h2)
+    · rw [hv] at tbl; dsimp only at tbl
+      rw [h] at tbl; cases tbl
+  · have hn : ∀ kn, WName.parse r.keyName ≠ some (kn, []) := fun kn hkn => hk ⟨kn, hkn⟩
+    unfold Server.tsigVerifyAndWrite at h
+    split at h
+    · rw [preparedFromRead_none r nowT _ hn] at h
+      cases h
+    · cases h
+
+/-- the witness of an authenticated request kept with the writer state: the TSIG recorded for the
+    response stems from a `verify_request` that succeeded under a configured key of the right algorithm -/
+def Authenticated (hm : Algorithm → Octets → Octets → Octets) (keys : List Key) (nowT : TimeSigned) (s : State) : Prop :=
+  ∃ (ts : Writer.Tsig) (r : ReadTsigRr) (msg : List UInt8) (alg : Hmac.Alg) (key : Key) (kn : WName),
+    s.tsig = some ts ∧ Algorithm.fromName r.algorithm = some alg ∧ findKey keys r.keyName alg = some key ∧
+    verifyRequest hm r msg alg key.secret nowT = .ok () ∧
+    ts.mode = .response (toWriterAlg alg) r.mac key.secret ∧ ts.rr = prepOf kn r nowT 0 ∧ getRcode s = 0
+
+theorem tsigProcess_some (hm : Algorithm → Octets → Octets → Octets) (keys : List Key) (s : State)
+    (hs : 12 ≤ s.octets.size) (r : ReadTsigRr) (msg : List UInt8) (nowT : TimeSigned) (r' x : Reader.Reader)
+    (s' : State) (h : tsigProcess hm keys nowT r msg r' s = (.ok (some x), s')) :
+    s.tsig = none ∧ Authenticated hm keys nowT s' ∧ s'.octets.size = s.octets.size := by
+  unfold Server.tsigProcess at h
+  cases ha : Algorithm.fromName r.algorithm with
+  | none =>
+    simp only [ha] at h
+    exact absurd h (tsigBadKey_not_some _ _ _ _ _)
+  | some alg =>
+    simp only [ha] at h
+    cases hk : findKey keys r.keyName alg with
+    | none =>
+      simp only [hk] at h
+      exact absurd h (tsigBadKey_not_some _ _ _ _ _)
+    | some key =>
+      simp only [hk] at h
+      obtain ⟨kn, s1, hkn, hv, _, hf, f1, r1, hs'⟩ := tsigVerifyAndWrite_some hm s hs r msg alg key.secret nowT r' x s' h
+      subst hs'
+      exact ⟨hf.1, ⟨⟨_, _, _⟩, r, msg, alg, key, kn, rfl, ha, hk, hv, rfl, rfl, r1⟩, f1.size⟩
+
+theorem handleTsig_some (cfg : Cfg) (now : Nat) (p : Reader.PeekRr) (raw : Nat) (s : State)
+    (hs : 12 ≤ s.octets.size) (x : Reader.Reader) (s' : State)
+    (h : handleTsig cfg now p raw s = (.ok (some x), s')) :
+    ∃ nowT, TimeSigned.tryFromUnix now = some nowT ∧ s.tsig = none ∧
+      Authenticated realHmac cfg.keys nowT s' ∧ s'.octets.size = s.octets.size := by
+  unfold Server.handleTsig at h
+  split at h
+  · split at h
+    · split at h
+      · exact absurd h (stop_not_some _ _ _ _)
+      · split at h
+        · exact absurd h (stop_not_some _ _ _ _)
+        · cases h
+        · cases h
+        · split at h
+          · cases h
+          · rename_i nowT hnow
+            obtain ⟨h0, ha, hsz⟩ := tsigProcess_some realHmac cfg.keys s hs _ _ nowT _ x s' h
+            exact ⟨nowT, hnow, h0, ha, hsz⟩
+    · exact absurd h (stop_not_some _ _ _ _)
+    · cases h
+  · cases h
+
+/-- the state of the TSIG bookkeeping while the scan goes on: nothing recorded yet, or the record of
+    an authenticated request -/
+def TsigClean (cfg : Cfg) (now : Nat) (s : State) : Prop :=
+  12 ≤ s.octets.size ∧
+  (s.tsig = none ∨ ∃ nowT, TimeSigned.tryFromUnix now = some nowT ∧ Authenticated realHmac cfg.keys nowT s)
+
+theorem Authenticated.congr {hm : Algorithm → Octets → Octets → Octets} {keys : List Key} {nowT : TimeSigned}
+    {s s' : State} (h : Authenticated hm keys nowT s) (ht : s'.tsig = s.tsig) (ho : s'.octets = s.octets) :
+    Authenticated hm keys nowT s' := by
+  obtain ⟨ts, r, msg, alg, key, kn, h1, h2, h3, h4, h5, h6, h7⟩ := h
+  refine ⟨ts, r, msg, alg, key, kn, ht.trans h1, h2, h3, h4, h5, h6, ?_⟩
+  unfold getRcode hdr at *; rw [ho]; exact h7
+
+theorem TsigClean.congr {cfg : Cfg} {now : Nat} {s s' : State} (h : TsigClean cfg now s) (ht : s'.tsig = s.tsig)
+    (ho : s'.octets = s.octets) : TsigClean cfg now s' := by
+  refine ⟨by rw [ho]; exact h.1, ?_⟩
+  rcases h.2 with h0 | ⟨nowT, hn, ha⟩
+  · left; exact ht.trans h0
+  · right; exact ⟨nowT, hn, ha.congr ht ho⟩
+
+/-- **if the scan of the additional section completes, any TSIG it recorded is that of an
+    authenticated request** -/
+theorem scanAr_tsigClean (cfg : Cfg) (tr : Transport) (now arcount : Nat) (n index : Nat) (st : ScanSt)
+    (s : State) (st' : ScanSt) (s' : State) (hp : TsigClean cfg now s)
+    (h : scanAr cfg tr now arcount n index st s = (.ok (some st'), s')) : TsigClean cfg now s' := by
+  refine scanAr_some cfg tr now arcount (TsigClean cfg now) ?_ ?_ ?_ n index st s st' s' hp h
+  · intro s s1 hp heq
+    unfold Writer.setEdns at heq
+    split at heq
+    · cases heq
+    · split at heq
+      · cases heq
+      · split at heq
+        · cases heq
+        · cases heq; exact hp.congr rfl rfl
+  · intro l s s1 hp heq
+    unfold Writer.setLimit at heq
+    dsimp only at heq
+    repeat' split at heq
+    all_goals first | (cases heq; done) | (cases heq; exact hp.congr rfl rfl)
+  · intro p raw s r' s1 hp heq
+    obtain ⟨nowT, hn, _, ha, hsz⟩ := handleTsig_some cfg now p raw s hp.1 r' s1 heq
+    exact ⟨by rw [hsz]; exact hp.1, Or.inr ⟨nowT, hn, ha⟩⟩
+
+/-! ### the scan phase as a whole -/
+
+/-- header and question only: no resource record has been written or counted -/
+def NoRecords (s : State) : Prop := s.cursor = s.rrStart ∧ s.ancount = 0 ∧ s.nscount = 0
+
+theorem NoRecords.of_frame {s s' : State} (h : NoRecords s) (f : ScanFrame s s') : NoRecords s' :=
+  ⟨by rw [f.cursor, f.rrStart]; exact h.1, by rw [f.ancount]; exact h.2.1, by rw [f.nscount]; exact h.2.2⟩
+
+theorem setRcode_frame (rc : Nat) (s : State) (r : Out WriterErr Unit) (s' : State)
+    (h : setRcode rc s = (r, s')) : ScanFrame s s' := by
+  have := Fr.setRcode rc s; rw [h] at this; exact this
+
+theorem scanTail_post (cfg : Cfg) (tr : Transport) (now an ns ar : Nat) (question : Option (WName × Nat × Nat))
+    (r1 : Reader.Reader) (addQ : M Bool) (s : State)
+    (hq : ∀ r s1, addQ s = (r, s1) → r ≠ .panic → NoRecords s1 ∧ s1.tsig = none ∧ 12 ≤ s1.octets.size)
+    (out : Out WriterErr ScanEnd) (s' : State)
+    (h : (do
+        let okQ ← addQ
+        if !okQ then pure ScanEnd.stop
+        else
+          let r2 := Reader.setMark r1
+          match scanAnNs (an + ns) r2 with
+          | none => do setRcode (RC "FORMERR"); pure ScanEnd.stop
+          | some r3 => do
+            let st ← scanAr cfg tr now ar ar 0 { r := r3 }
+            match st with
+            | none => pure ScanEnd.stop
+            | some st' =>
+              if !Reader.atEom st'.r then do setRcode (RC "FORMERR"); pure ScanEnd.stop
+              else pure (ScanEnd.proceed question) : M ScanEnd) s = (out, s'))
+    (hnp : out ≠ .panic) :
+    NoRecords s' ∧ (∀ q, out = .ok (ScanEnd.proceed q) → TsigClean cfg now s') := by
+  simp only [bind] at h
+  rcases hqa : addQ s with ⟨rq, s1⟩
+  rw [hqa] at h
+  rcases rq with okQ | e | _
+  · obtain ⟨n1, t1, z1⟩ := hq _ _ hqa (by simp)
+    cases okQ
+    · simp [pure] at h; obtain ⟨rfl, rfl⟩ := h
+      exact ⟨n1, fun q hq => by cases hq⟩
+    · simp only [Bool.not_true, Bool.false_eq_true, if_false] at h
+      rcases hsn : scanAnNs (an + ns) (Reader.setMark r1) with _ | r3
+      · simp only [hsn, bind] at h
+        rcases hr : setRcode (RC "FORMERR") s1 with ⟨rr, s2⟩
+        have f := setRcode_frame _ _ _ _ hr
+        rw [hr] at h
+        rcases rr with u | e | _ <;> simp [pure] at h <;> obtain ⟨rfl, rfl⟩ := h
+        · exact ⟨n1.of_frame f, fun q hq => by cases hq⟩
+        · exact ⟨n1.of_frame f, fun q hq => by cases hq⟩
+        · exact absurd rfl hnp
+      · simp only [hsn, bind] at h
+        rcases hsc : scanAr cfg tr now ar ar 0 { r := r3 } s1 with ⟨rs, s2⟩
+        have f : ScanFrame s1 s2 := by have := Fr.scanAr cfg tr now ar ar 0 { r := r3 } s1; rw [hsc] at this; exact this
+        rw [hsc] at h
+        rcases rs with st | e | _
+        · cases st with
+          | none =>
+            simp [pure] at h; obtain ⟨rfl, rfl⟩ := h
+            exact ⟨n1.of_frame f, fun q hq => by cases hq⟩
+          | some st' =>
+            have hc := scanAr_tsigClean cfg tr now ar ar 0 _ s1 st' s2 ⟨z1, Or.inl t1⟩ hsc
+            by_cases he : Reader.atEom st'.r
+            · simp [he, pure] at h; obtain ⟨rfl, rfl⟩ := h
+              exact ⟨n1.of_frame f, fun q _ => hc⟩
+            · rcases hr : setRcode (RC "FORMERR") s2 with ⟨rr, s3⟩
+              have f2 := setRcode_frame _ _ _ _ hr
+              rcases rr with u | e | _ <;> simp [he, hr, pure, bind] at h <;> obtain ⟨rfl, rfl⟩ := h
+              · exact ⟨(n1.of_frame f).of_frame f2, fun q hq => by cases hq⟩
+              · exact ⟨(n1.of_frame f).of_frame f2, fun q hq => by cases hq⟩
+              · exact absurd rfl hnp
+        · simp at h; obtain ⟨rfl, rfl⟩ := h
+          exact ⟨n1.of_frame f, fun q hq => by cases hq⟩
+        · simp at h; obtain ⟨rfl, rfl⟩ := h
+          exact absurd rfl hnp
+  · obtain ⟨n1, _, _⟩ := hq _ _ hqa (by simp)
+    simp at h; obtain ⟨rfl, rfl⟩ := h
+    exact ⟨n1, fun q hq => by cases hq⟩
+  · simp at h; obtain ⟨rfl, rfl⟩ := h
+    exact absurd rfl hnp
+
+theorem addQ_post (qn : WName) (qt qc : Nat) (s : State) (hn : NoRecords s) (ht : s.tsig = none)
+    (hs : 12 ≤ s.octets.size) (r : Out WriterErr Bool) (s1 : State)
+    (h : (match addQuestion qn qt qc s with
+          | (.ok (), s') => (.ok true, s')
+          | (.err _, s') => (do setRcode (RC "SERVFAIL"); pure false : M Bool) s'
+          | (.panic, s') => (.panic, s')) = (r, s1)) (hnp : r ≠ .panic) :
+    NoRecords s1 ∧ s1.tsig = none ∧ 12 ≤ s1.octets.size := by
+  obtain ⟨hok, herr⟩ := addQuestion_spec qn qt qc s
+  rcases ha : addQuestion qn qt qc s with ⟨ra, s2⟩
+  rw [ha] at h
+  rcases ra with u | e | _
+  · cases u
+    simp only at h; obtain ⟨rfl, rfl⟩ := h
+    obtain ⟨rm, h1, _⟩ := hok _ ha
+    exact ⟨⟨h1.symm, by rw [rm.ancount]; exact hn.2.1, by rw [rm.nscount]; exact hn.2.2⟩,
+      by rw [rm.tsig]; exact ht, by rw [rm.size]; exact hs⟩
+  · obtain ⟨rm, h1, h2⟩ := herr _ _ ha
+    have hs2 : 12 ≤ s2.octets.size := by rw [rm.size]; exact hs
+    obtain ⟨s3, h3, f3, _, _⟩ := setRcode_spec (RC "SERVFAIL") (by decide) s2 hs2
+    simp only [bind, h3, pure] at h
+    obtain ⟨rfl, rfl⟩ := h
+    have n2 : NoRecords s2 := ⟨by rw [h1, h2]; exact hn.1, by rw [rm.ancount]; exact hn.2.1, by rw [rm.nscount]; exact hn.2.2⟩
+    exact ⟨n2.of_frame f3.scanFrame, by rw [f3.tsig, rm.tsig]; exact ht, by rw [f3.size]; exact hs2⟩
+  · simp only at h; obtain ⟨rfl, rfl⟩ := h
+    exact absurd rfl hnp
+
+/-- **The scan phase never writes a record, and proceeds to the opcode dispatch only with a clean
+    TSIG state**: starting from a writer that holds a header only, whatever the request, the phase
+    ends (unless it panics) with header + question only, and if it hands over to the dispatch, the
+    TSIG recorded — if any — is that of an authenticated request. -/
+theorem scanPhase_post (cfg : Cfg) (tr : Transport) (now : Nat) (r0 : Reader.Reader) (s : State)
+    (hn : NoRecords s) (ht : s.tsig = none) (hs : 12 ≤ s.octets.size)
+    (out : Out WriterErr ScanEnd) (s' : State) (h : scanPhase cfg tr now r0 s = (out, s')) (hnp : out ≠ .panic) :
+    NoRecords s' ∧ (∀ q, out = .ok (ScanEnd.proceed q) → TsigClean cfg now s') := by
+  unfold scanPhase at h
+  split at h
+  · rename_i qd an ns ar opcode hqd han hns har hop
+    by_cases h0 : qd = 0
+    · simp only [h0, if_true] at h
+      refine scanTail_post cfg tr now an ns ar none r0 _ s ?_ out s' h hnp
+      intro r s1 hr _
+      cases hr
+      exact ⟨hn, ht, hs⟩
+    · by_cases h1 : qd = 1
+      · simp only [h0, h1, if_true, if_false] at h
+        rcases hrq : Reader.readQuestion r0 with ⟨rq, r1⟩
+        rw [hrq] at h
+        rcases rq with q | e | _
+        · rcases hp : WName.parse q.qname with _ | ⟨qn, rest⟩
+          · simp [hp] at h; exact absurd h.1.symm hnp
+          · cases rest with
+            | nil =>
+              simp only [hp] at h
+              refine scanTail_post cfg tr now an ns ar (some (qn, q.qtype, q.qclass)) r1 _ s ?_ out s' h hnp
+              intro r s1 hr hnp1
+              exact addQ_post qn q.qtype q.qclass s hn ht hs r s1 hr hnp1
+            | cons a t => simp [hp] at h; exact absurd h.1.symm hnp
+        · simp only [bind] at h
+          rcases hr : setRcode 1 s with ⟨rr, s3⟩
+          have f := setRcode_frame _ _ _ _ hr
+          rcases rr with u | e | _ <;> simp [hr, pure, rc_formerr] at h <;> obtain ⟨rfl, rfl⟩ := h
+          · exact ⟨hn.of_frame f, fun q hq => by cases hq⟩
+          · exact ⟨hn.of_frame f, fun q hq => by cases hq⟩
+          · exact absurd rfl hnp
+        · simp at h; exact absurd h.1.symm hnp
+      · simp [h0, h1] at h
+        obtain ⟨rfl, rfl⟩ := h
+        exact ⟨hn, fun q hq => by cases hq⟩
+  · cases h; exact absurd rfl hnp
+
 
 end QV.ServerTsig
